@@ -221,7 +221,7 @@ func (r *Run) Sample(v interface{}) {
 	}
 	r.mu.Unlock()
 }
-func (r *Run) Assume(s string)               { r.mu.Lock(); r.assumptions = append(r.assumptions, s); r.mu.Unlock() }
+func (r *Run) Assume(s string) { r.mu.Lock(); r.assumptions = append(r.assumptions, s); r.mu.Unlock() }
 func (r *Run) Extra(k string, v interface{}) {
 	if k == "exhaustive" { // the evidence schema wants a boolean here; descriptions go to exhaustive_scope
 		if _, ok := v.(bool); !ok {
@@ -232,8 +232,8 @@ func (r *Run) Extra(k string, v interface{}) {
 	r.extra[k] = v
 	r.mu.Unlock()
 }
-func (r *Run) Inconclusive(why string)       { r.mu.Lock(); r.incon = append(r.incon, why); r.mu.Unlock() }
-func (r *Run) Violations() int               { r.mu.Lock(); defer r.mu.Unlock(); return r.violations }
+func (r *Run) Inconclusive(why string) { r.mu.Lock(); r.incon = append(r.incon, why); r.mu.Unlock() }
+func (r *Run) Violations() int         { r.mu.Lock(); defer r.mu.Unlock(); return r.violations }
 
 // Require marks the run inconclusive when an oracle branch was never observed.
 func (r *Run) Require(counter string, min int64) {
